@@ -204,15 +204,25 @@ Definition coincide_b (t u : pt) (pi pj : list pn) : bool :=
 Definition pair_eqb (a b : list nat * list nat) : bool :=
   nat_list_eqb (fst a) (fst b) && nat_list_eqb (snd a) (snd b).
 
+(** (coordinates of a physical element, the cell it backs) for every element *)
+Definition cell_table (t : pt) : list (list nat * list nat) :=
+  map (fun pi => (map snd pi, evals (env_of pi) (vaxes t))) (all_envs (paxes t)).
+
+Fixpoint tlookup (c : list nat) (T : list (list nat * list nat)) : option (list nat) :=
+  match T with
+  | [] => None
+  | (c', cell) :: T => if nat_list_eqb c' c then Some cell else tlookup c T
+  end.
+
 Definition overlap_ok_b (t u : pt) (cs : list (list nat * list nat)) : bool :=
+  let Tt := cell_table t in
+  let Tu := cell_table u in
   nodup_tuples (map fst cs)
-  && forallb (fun cc => existsb (fun pi => nat_list_eqb (map snd pi) (fst cc) &&
-                          existsb (fun pj => nat_list_eqb (map snd pj) (snd cc) && coincide_b t u pi pj)
-                                  (all_envs (paxes u)))
-                        (all_envs (paxes t))) cs
-  && forallb (fun pi => forallb (fun pj => negb (coincide_b t u pi pj) || memb pair_eqb (map snd pi, map snd pj) cs)
-                                (all_envs (paxes u)))
-             (all_envs (paxes t)).
+  && forallb (fun cc => match tlookup (fst cc) Tt, tlookup (snd cc) Tu with
+                        | Some a, Some b => nat_list_eqb a b
+                        | _, _ => false
+                        end) cs
+  && forallb (fun a => forallb (fun b => negb (nat_list_eqb (snd a) (snd b)) || memb pair_eqb (fst a, fst b) cs) Tu) Tt.
 
 Definition overlap_exact_b (next : positive) (t u : pt) : bool :=
   match overlap_model xval next t u with
